@@ -10,6 +10,7 @@ import CfVerif.Proofs.C14Deck
 import CfVerif.Proofs.C14Misc
 import CfVerif.Proofs.C14Yaml
 import CfVerif.Proofs.C14State
+import CfVerif.Proofs.C14Helper
 namespace CfVerif.C14
 open CfVerif
 
@@ -216,6 +217,61 @@ theorem gen_state_others : Gen.C14.locoUpdateInit = ["not self._update_finished_
     Gen.C14.deckQueryInit = ["self._error = None", "self.deck_memories = {}", "self._query_complete_cb = query_complete_cb",
       "self._query_failed_cb = query_failed_cb"] := by decide
 
+/-- `LighthouseMemHelper._ObjectWriter/_ObjectReader`: the writer works on a COPY of the caller's dict (the model reads
+`lhWriterQueueSrc`), pops the first entry, finishes by resetting its state; the reader walks the channels in order -/
+theorem gen_lh_helper : Gen.C14.lhWriterQueueSrc = "dict(object_dict)" ∧
+    Gen.C14.lhWriterWrite = ["if self._objects_to_write is not None:", "raise", "self._write_done_cb = write_done_cb",
+      "self._objects_to_write = dict(object_dict)", "self._write_failed_for_one_or_more_objects = False", "self._write_next_object()"] ∧
+    Gen.C14.lhWriterNext = ["if len(self._objects_to_write) > 0:", "id = list(self._objects_to_write.keys())[0]",
+      "data = self._objects_to_write.pop(id)", "self._write_fcn(id, data, self._data_written, write_failed_cb=self._write_failed)",
+      "else:", "tmp_cb = self._write_done_cb", "is_sucess = not self._write_failed_for_one_or_more_objects",
+      "self._objects_to_write = None", "self._write_done_cb = None", "self._write_failed_for_one_or_more_objects = False",
+      "tmp_cb(is_sucess)"] ∧
+    Gen.C14.lhWriterDataWritten = ["self._write_next_object()"] ∧
+    Gen.C14.lhWriterWriteFailed = ["self._write_failed_for_one_or_more_objects = True", "self._write_next_object()"] ∧
+    Gen.C14.lhReaderReadAll = ["if self._read_done_cb is not None:", "raise", "self._result = {}", "self._next_id = 0",
+      "self._read_done_cb = read_done_cb", "self._get_object(0)"] ∧
+    Gen.C14.lhReaderDataUpdated = ["self._result[self._next_id] = data", "self._next_id += 1", "self._get_object(self._next_id)"] ∧
+    Gen.C14.lhReaderUpdateFailed = ["self._next_id += 1", "self._get_object(self._next_id)"] ∧
+    Gen.C14.lhReaderGetObject = ["if channel < self.NR_OF_CHANNELS:",
+      "self._read_fcn(channel, self._data_updated, update_failed_cb=self._update_failed)", "else:", "tmp_cb = self._read_done_cb",
+      "tmp_result = self._result", "self._read_done_cb = None", "self._result = None", "self._next_id = None", "tmp_cb(tmp_result)"] ∧
+    Gen.C14.lhHelperInit = ["self.geo_reader = self._ObjectReader(lh_mem.read_geo_data)",
+      "self.geo_writer = self._ObjectWriter(lh_mem.write_geo_data)", "self.calib_reader = self._ObjectReader(lh_mem.read_calib_data)",
+      "self.calib_writer = self._ObjectWriter(lh_mem.write_calib_data)"] ∧
+    Gen.C14.lhHelperCalls = ["self.geo_reader.read_all(read_done_cb)", "self.geo_writer.write(geometry_dict, write_done_cb)",
+      "self.calib_reader.read_all(read_done_cb)", "self.calib_writer.write(calibration_dict, write_done_cb)"] := by decide
+theorem gen_lh_memory_callbacks : Gen.C14.lhMemWriteGeo = ["if self._write_finished_cb:", "raise", "data = bytearray()",
+      "geo_data.add_mem_data(data)", "self._write_finished_cb = write_finished_cb", "self._write_failed_cb = write_failed_cb",
+      "geo_addr = self.GEO_START_ADDR + bs_id * self.PAGE_SIZE", "self.mem_handler.write(self, geo_addr, data, flush_queue=True)"] ∧
+    Gen.C14.lhMemWriteCalib = ["if self._write_finished_cb:", "raise", "data = bytearray()", "calibration_data.add_mem_data(data)",
+      "self._write_finished_cb = write_finished_cb", "self._write_failed_cb = write_failed_cb",
+      "calib_addr = self.CALIB_START_ADDR + bs_id * self.PAGE_SIZE", "self.mem_handler.write(self, calib_addr, data, flush_queue=True)"] ∧
+    Gen.C14.lhMemReadGeo = ["if self._update_finished_cb:", "raise", "self._update_finished_cb = update_finished_cb",
+      "self._update_failed_cb = update_failed_cb",
+      "self.mem_handler.read(self, self.GEO_START_ADDR + bs_id * self.PAGE_SIZE, LighthouseBsGeometry.SIZE_GEOMETRY)"] ∧
+    Gen.C14.lhMemReadCalib = ["if self._update_finished_cb:", "raise", "self._update_finished_cb = update_finished_cb",
+      "self._update_failed_cb = update_failed_cb",
+      "self.mem_handler.read(self, self.CALIB_START_ADDR + bs_id * self.PAGE_SIZE, LighthouseBsCalibration.SIZE_CALIBRATION)"] ∧
+    Gen.C14.lhMemNewDataFailed = ["if mem.id == self.id:", "tmp_update_failed_cb = self._update_failed_cb", "self._clear_update_cb()",
+      "if tmp_update_failed_cb:", "tmp_update_failed_cb(self)"] ∧
+    Gen.C14.lhMemWriteDone = ["if mem.id == self.id:", "tmp_cb = self._write_finished_cb", "self._clear_write_cb()", "if tmp_cb:",
+      "tmp_cb(self, addr)"] ∧
+    Gen.C14.lhMemWriteFailed = ["if mem.id == self.id:", "tmp_cb = self._write_failed_cb", "self._clear_write_cb()", "if tmp_cb:",
+      "tmp_cb(self, addr)"] ∧
+    Gen.C14.lhMemNewData = ["if mem.id == self.id:", "tmp_update_finished_cb = self._update_finished_cb", "self._clear_update_cb()",
+      "if addr < self.CALIB_START_ADDR:", "geo_data = LighthouseBsGeometry()", "geo_data.set_from_mem_data(data)",
+      "if tmp_update_finished_cb:", "tmp_update_finished_cb(self, geo_data)", "else:", "calibration_data = LighthouseBsCalibration()",
+      "calibration_data.set_from_mem_data(data)", "if tmp_update_finished_cb:", "tmp_update_finished_cb(self, calibration_data)"] := by
+  decide
+/-- `LighthouseConfigWriter` hands its OWN padded copies to the helper -/
+theorem gen_lh_config_writer : Gen.C14.lhCfgPrepareGeos = ["result = None", "if geos is not None:", "result = dict(geos)",
+      "empty_geo = LighthouseBsGeometry()"] ∧
+    Gen.C14.lhCfgPrepareCalibs = ["result = None", "if calibs is not None:", "result = dict(calibs)",
+      "empty_calib = LighthouseBsCalibration()"] ∧
+    Gen.C14.lhCfgNextCalls = ["self._helper.write_geos(self._geos_to_write, self._upload_done)",
+      "self._helper.write_calibs(self._calibs_to_write, self._upload_done)"] := by decide
+
 /-! ## EEPROM radio configuration -/
 
 /-- Round trip, version 0: whatever image `write_data` produces for the elements (it produces one exactly for
@@ -401,6 +457,82 @@ theorem lh_config_roundtrip (gs : List (Nat × Geo)) (cs : List (Nat × Calib)) 
     (hgn : (gs.map (·.1)).Nodup) (hcn : (cs.map (·.1)).Nodup) (hlt : ∀ p ∈ gs, p.1 < Gen.C14.lhNrOfChannels) :
     (∀ p ∈ gs, lhReadGeo mc p.1 = .ok (.geo p.2)) ∧ (∀ p ∈ cs, lhReadCalib mc p.1 = .ok (.calib p.2)) :=
   lh_config_roundtrip_aux gs cs m mg mc hg hc hgn hcn hlt
+
+/-! ### every USE of the helper's writer / reader objects (LighthouseMemHelper) -/
+
+/-- A completed `write_geos(d)` / `write_calibs(d)`: for EVERY prior state of the writer in which no upload is pending, every
+dict `d`, every memory and every accept/refuse pattern of the device, the memory afterwards is the layout of `d`
+(`lhWriteSpec`: object after object at its page, refused objects not stored), the reported success says whether all were
+accepted, the writer is idle again, and THE CALLER'S DICT IS UNCHANGED. -/
+theorem lh_write_completes_with_layout (k : LhKind) (s : LhW) (hq : s.queue = none) (hb : s.lhBusy = false)
+    (d : Dict LhObj) (m : Mem) (acks : List Bool) :
+    lhRunWrite k s d m acks = (lhWriteSpec k m d acks false).map fun r => (⟨none, false, false, d⟩, r.1, some r.2) :=
+  lhRunWrite_spec k s hq hb d m acks
+
+/-- ... so the same dict object can be uploaded again (second Crazyflie, after a power cycle): the second upload,
+given the caller's dict as the first upload left it, writes the layout of the ORIGINAL `d` into the second memory. -/
+theorem lh_repeated_upload (k : LhKind) (s : LhW) (hq : s.queue = none) (hb : s.lhBusy = false)
+    (d : Dict LhObj) (m1 m2 : Mem) (acks1 acks2 : List Bool) (s1 : LhW) (m1' : Mem) (r1 : Option Bool)
+    (h1 : lhRunWrite k s d m1 acks1 = .ok (s1, m1', r1)) :
+    s1.caller = d ∧
+    lhRunWrite k s1 s1.caller m2 acks2 = (lhWriteSpec k m2 d acks2 false).map fun r => (⟨none, false, false, d⟩, r.1, some r.2) := by
+  rw [lhRunWrite_spec k s hq hb] at h1
+  cases hs : lhWriteSpec k m1 d acks1 false with
+  | error e => rw [hs] at h1; cases h1
+  | ok r =>
+    rw [hs] at h1
+    simp only [Except.map, Except.ok.injEq, Prod.mk.injEq] at h1
+    obtain ⟨rfl, _, _⟩ := h1
+    exact ⟨rfl, lhRunWrite_spec k _ rfl rfl d m2 acks2⟩
+
+/-- with every write accepted the geometry upload is exactly the page layout `lhWriteGeos` of the theorems above
+(`lh_config_roundtrip`), and reports success -/
+theorem lh_write_geos_is_layout (s : LhW) (hq : s.queue = none) (hb : s.lhBusy = false) (d : List (Nat × Geo)) (m : Mem) :
+    lhRunWrite .geo s (d.map fun p => (p.1, LhObj.geo p.2)) m [] =
+      (lhWriteGeos m d).map fun m' => (⟨none, false, false, d.map fun p => (p.1, LhObj.geo p.2)⟩, m', some true) := by
+  rw [lhRunWrite_spec .geo s hq hb, lhWriteSpec_geos]
+  cases lhWriteGeos m d <;> rfl
+
+theorem lh_write_calibs_is_layout (s : LhW) (hq : s.queue = none) (hb : s.lhBusy = false) (d : List (Nat × Calib)) (m : Mem) :
+    lhRunWrite .calib s (d.map fun p => (p.1, LhObj.calib p.2)) m [] =
+      (lhWriteCalibs m d).map fun m' => (⟨none, false, false, d.map fun p => (p.1, LhObj.calib p.2)⟩, m', some true) := by
+  rw [lhRunWrite_spec .calib s hq hb, lhWriteSpec_calibs]
+  cases lhWriteCalibs m d <;> rfl
+
+/-- A completed `read_all_geos()` / `read_all_calibs()`: for every prior state with no read pending, the result holds, for
+each of the 16 channels the device serves, in order, exactly the parsed content of its page; the reader is idle again. -/
+theorem lh_read_all_spec (k : LhKind) (s : LhR) (hn : s.next = none) (hb : s.lhBusy = false) (m : Mem) (fails : List Nat) :
+    lhRunRead k s m fails = (lhReadSpec k m fails 0 16 []).map fun r => (⟨none, [], false⟩, some r) :=
+  lhRunRead_spec k s hn hb m fails
+
+/-- Write then read back through the helper: geometries for any set of distinct base stations (< 16) uploaded with
+`write_geos` come back from `read_all_geos` under their base station ids (for every channel the device serves). -/
+theorem lh_write_then_read_all (w : LhW) (hq : w.queue = none) (hwb : w.lhBusy = false) (r : LhR) (hn : r.next = none)
+    (hrb : r.lhBusy = false) (d : List (Nat × Geo)) (hnd : (d.map (·.1)).Nodup) (hlt : ∀ p ∈ d, p.1 < Gen.C14.lhNrOfChannels)
+    (m : Mem) (w' : LhW) (m' : Mem) (ok : Option Bool)
+    (hw : lhRunWrite .geo w (d.map fun p => (p.1, LhObj.geo p.2)) m [] = .ok (w', m', ok))
+    (fails : List Nat) (r' : LhR) (res : Dict LhObj) (hr : lhRunRead .geo r m' fails = .ok (r', some res)) :
+    ∀ p ∈ d, fails.contains p.1 = false → (p.1, LhObj.geo p.2) ∈ res := by
+  rw [lh_write_geos_is_layout w hq hwb] at hw
+  rw [lhRunRead_spec .geo r hn hrb] at hr
+  cases hwg : lhWriteGeos m d with
+  | error e => rw [hwg] at hw; cases hw
+  | ok mm =>
+    rw [hwg] at hw
+    simp only [Except.map, Except.ok.injEq, Prod.mk.injEq] at hw
+    obtain ⟨_, rfl, _⟩ := hw
+    cases hrs : lhReadSpec .geo mm fails 0 16 [] with
+    | error e => rw [hrs] at hr; cases hr
+    | ok res' =>
+      rw [hrs] at hr
+      simp only [Except.map, Except.ok.injEq, Prod.mk.injEq, Option.some.injEq] at hr
+      obtain ⟨_, rfl⟩ := hr
+      exact lh_write_then_read_aux d hnd hlt m mm hwg fails res' hrs
+
+/-- `LighthouseConfigWriter._prepare_geos/_prepare_calibs`: the dict handed to the helper is the caller's entries plus
+an empty (invalid) object for every base station below `nr` the caller did not mention - a new dict, never the caller's. -/
+theorem lh_prepare_pads (d : Dict LhObj) (empty : LhObj) (nr : Nat) (p : Nat × LhObj) :
+    p ∈ lhPrepare d empty nr ↔ p ∈ d ∨ (p.1 < nr ∧ (∀ q ∈ d, q.1 ≠ p.1) ∧ p.2 = empty) := lhPrepare_mem d empty nr p
 
 example : geoImage ⟨⟨0x3F800000, 0, 0xBF800000⟩, ⟨0x7F7FFFFF, 1, 0x80000000⟩, ⟨0, 0, 0⟩, ⟨0x7FC00000, 0x7F800000, 0xFF800000⟩, true⟩ =
     .ok [0,0,128,63, 0,0,0,0, 0,0,128,191,  255,255,127,127, 1,0,0,0, 0,0,0,128,  0,0,0,0, 0,0,0,0, 0,0,0,0,
